@@ -68,6 +68,27 @@ def classify_for(loop, f, idx=None):
                         b = _exit_compare(dj, tv)
                         if b is not None and not b.startswith("==") and b not in assigned:
                             return "CAP", "for over itertools.count with the exit `%s` (bound %s is not assigned in the loop)" % (u(dj), b)
+        # no cap on the counter: `for i in itertools.count(k)` is `while True:` with `i += 1` as its first statement — classified as that loop
+        if isinstance(loop.target, ast.Name) and idx is not None and not loop.orelse:
+            import copy
+            fnode = copy.deepcopy(f.node)
+            par, target = None, None
+            for n in ast.walk(fnode):
+                for fld in ("body", "orelse", "finalbody"):
+                    blk = getattr(n, fld, None)
+                    if isinstance(blk, list):
+                        for i_, x in enumerate(blk):
+                            if isinstance(x, ast.For) and x.lineno == loop.lineno and x.col_offset == loop.col_offset:
+                                par, target = (blk, i_), x
+            if target is not None:
+                inc = ast.copy_location(ast.AugAssign(target=ast.Name(id=loop.target.id, ctx=ast.Store()), op=ast.Add(), value=ast.Constant(value=1)), target)
+                w = ast.copy_location(ast.While(test=ast.Constant(value=True), body=[inc] + target.body, orelse=[]), target)
+                par[0][par[1]] = w
+                ast.fix_missing_locations(fnode)
+                g = copy.copy(f)
+                g.node = fnode
+                cls_, why = classify_while(w, g, idx)
+                return cls_, "(`for %s in %s` read as `while True: %s += 1; ...`) %s" % (loop.target.id, u(it), loop.target.id, why)
         return None, "endless iterator `%s` without a top-level exit on the loop variable" % u(it)
     if cn in ("enumerate", "zip", "reversed", "sorted", "list", "tuple"):
         return "STRUCT", "for over %s(...)" % cn
